@@ -83,6 +83,15 @@ def main():
             sh('git -C /repo worktree remove --force %s' % wt)
     dst = os.path.join(HERE, 'seeded', a.id)
     os.makedirs(dst, exist_ok=True)
+    old = os.path.join(dst, 'meta.json')
+    if a.skip_tests and os.path.exists(old):
+        try:
+            prev = json.load(open(old)).get('evaluation', {})
+            for k in ('tests_passed_with_patch', 'tests_failed_with_patch', 'tests_wall_s'):
+                if prev.get(k) is not None and res.get(k) is None:
+                    res[k] = prev[k]
+        except Exception:
+            pass
     for f in ('patch.diff', 'demo.py'):
         shutil.copy(os.path.join(a.src, f), os.path.join(dst, f))
     meta['evaluation'] = res
